@@ -16,6 +16,8 @@ Exit status and VIOLATION lines come from step 1 only.
 import glob, json, os, re, shutil, subprocess, sys, tempfile, time
 from concurrent.futures import ThreadPoolExecutor
 
+FULL_REFACTOR_CORPUS = False  # set by main() for `all`
+
 VERIF = os.path.dirname(os.path.abspath(__file__))
 BIN = os.path.join(VERIF, "bin", "cosilint")
 
@@ -44,10 +46,20 @@ def corpus_for(prop):
 def refactors_for(prop):
     """Behaviour-preserving refactorings (refactors/<id>/patch.diff): every check must stay silent on them."""
     out = []
+    relevant = None
+    if prop is not None and not FULL_REFACTOR_CORPUS:
+        try:
+            relevant = set(json.load(open(os.path.join(VERIF, "refactors", "relevance.json")))["relevant"][prop])
+        except Exception:
+            relevant = None
     for d in sorted(glob.glob(os.path.join(VERIF, "refactors", "*"))):
         patch = os.path.join(d, "patch.diff")
         meta = os.path.join(d, "meta.json")
         if not os.path.exists(patch):
+            continue
+        # a single-property run applies the refactorings that touch a package the property has obligations in
+        # (refactors/relevance.json, regenerated with tools/refactor_relevance.py); `all` applies every one of them
+        if relevant is not None and os.path.basename(d) not in relevant:
             continue
         props = None
         if os.path.exists(meta):
@@ -199,6 +211,8 @@ def main():
     props = ["C%02d" % i for i in range(1, 21)] if prop == "all" else prop.split(",")
     ref_cache = None
     if len(props) > 3:
+        global FULL_REFACTOR_CORPUS
+        FULL_REFACTOR_CORPUS = True
         # one load per refactoring for all requested properties instead of one per (property, refactoring)
         refs = refactors_for(None)
         with ThreadPoolExecutor(max_workers=6) as ex:
